@@ -31,6 +31,10 @@ def gen_scen(rng, idx):
     sendq = {c: [] for c in cids}
     written = {c: [] for c in cids}
     pk = [0]
+    upn = [0]
+    expdown = {}
+    downn = {}
+    closed_cids = set()   # a carrier of this ClientID was closed by the peer: its write loop may still take (and lose) one packet
 
     def newpkt(n=None):
         pk[0] += 1
@@ -44,8 +48,12 @@ def gen_scen(rng, idx):
         oc = open_carriers(c)
         if len(oc) == 1:
             while sendq[c]:
-                sendq[c].pop(0)
+                p = sendq[c].pop(0)
                 mops.append("s%d" % oc[0])
+                expdown.setdefault(oc[0], []).append(p)
+                downn[oc[0]] = downn.get(oc[0], 0) + len(prefix(len(p) // 2)) // 2 + len(p) // 2
+            if deterministic and c not in closed_cids and ops and oc[0] in downn:
+                ops[-1] = ops[-1] + "@d%d=%d" % (oc[0], downn[oc[0]])
         # with several open carriers of one ClientID the choice is the scheduler's: relational check only
 
     deterministic = True
@@ -101,16 +109,20 @@ def gen_scen(rng, idx):
                 ops.append("r%d:x%s" % (i, s[pos:pos + n])); mops.append("r%d:x%s" % (i, s[pos:pos + n]))
                 pos += n
             carriers[i]["sent"] += [p for end, p in pkts if end <= cutat]
+            upn[0] += len([1 for end, p in pkts if end <= cutat])
+            if ops and ops[-1].startswith("r%d:" % i):
+                ops[-1] = ops[-1] + "@u%d" % upn[0]
             if close_after:
                 ops.append("c%d" % i); mops.append("c%d" % i)
                 carriers[i]["open"] = False
+                closed_cids.add(carriers[i]["cid"])
         elif r < 0.9:
             c = rng.choice(cids)
             p = newpkt()
             ops.append("w:x%s:x%s" % (c, p)); mops.append("w:x%s:x%s" % (c, p))
             written[c].append(p)
             sendq[c].append(p)
-            if len(open_carriers(c)) > 1:
+            if len(open_carriers(c)) > 1 or c in closed_cids:
                 deterministic = False
             flush_sends(c)
         else:
@@ -119,6 +131,7 @@ def gen_scen(rng, idx):
                 i = rng.choice(cand)
                 ops.append("c%d" % i); mops.append("c%d" % i)
                 carriers[i]["open"] = False
+                closed_cids.add(carriers[i]["cid"])
         if any(k["kind"] == "garbage" for k in carriers):
             pass
     # garbage carriers: random bytes after the header, upstream only
@@ -128,7 +141,7 @@ def gen_scen(rng, idx):
             ops.append("r%d:x%s" % (i, g)); mops.append("r%d:x%s" % (i, g))
             deterministic_down = False
             k["garbage"] = g
-    return ops, mops, dict(cids=cids, carriers=carriers, written=written, deterministic=deterministic)
+    return ops, mops, dict(cids=cids, carriers=carriers, written=written, deterministic=deterministic, expdown=expdown)
 
 
 def parse_impl(o):
@@ -183,6 +196,9 @@ def check_props(meta, d):
                 bad.append(("downstream-wrong-session" if owner else "downstream-foreign-packet",
                             "carrier %d (ClientID %s) was written packet %s.. addressed to %s" % (i, k["cid"], p[:16], owner[0] if owner else "nobody")))
             seen[p] = seen.get(p, 0) + 1
+        if meta["deterministic"] and chunks != meta["expdown"].get(i, []):
+            bad.append(("downstream-not-delivered", "carrier %d (the only open carrier of ClientID %s) should have been written %d packets, got %d" % (
+                i, k["cid"], len(meta["expdown"].get(i, [])), len(chunks))))
     for p, n in seen.items():
         if n > 1:
             bad.append(("downstream-duplicated", "packet %s.. was written to %d carriers" % (p[:16], n)))
